@@ -255,6 +255,9 @@ class Run(object):
             return NONE
         if k == "tuple":
             return TupleV([self.fresh_value(st, t, base + "_%d" % i) for i, t in enumerate(ty.arg)])
+        if k == "map":
+            kt, vt = ty.arg
+            return self.fresh(base, tm.Arr(kt.sort(), vt.sort()))
         if k == "rec":
             fields = {}
             for name, opt, fty in ty.arg:
@@ -350,8 +353,8 @@ class Run(object):
         self.obls.append(Obl(name, st.ctx(), goal, kind, self.qual, node))
         st.assume(Implies(And(*st.guards), goal) if st.guards else goal)
 
-    def check(self, st, ok, exc, node=None):
-        """python operation that raises `exc` unless ok."""
+    def check(self, st, ok, exc, node=None, effect=None):
+        """python operation that raises `exc` unless ok. effect(state): state change that accompanies the raise."""
         if self.spec_mode:
             return
         if ok.op == "#bool" and ok.val:
@@ -365,7 +368,7 @@ class Run(object):
         if handled or (allowed != "nothing" and any(exc_matches(exc, a) for a in allowed)):
             if st.effect:
                 raise Unsupported("operation may raise after a side effect within one statement (line %s)" % getattr(node, "lineno", "?"))
-            st.pending.append((Not(okg), exc))
+            st.pending.append((Not(okg), exc, effect))
             st.assume(okg)
         else:
             self.prove(st, ok, "no-raise", node, exc)
@@ -506,6 +509,8 @@ class Run(object):
         if isinstance(base, ModuleV):
             r = self.engine.repo.resolve(base.name + "." + attr)
             if r is None:
+                if base.name + "." + attr in self.engine.contracts:
+                    return FuncV(base.name + "." + attr)
                 return ModuleV(base.name + "." + attr)
             if r[0] == "module":
                 return ModuleV(r[1].name)
@@ -521,6 +526,8 @@ class Run(object):
                 q = self.engine.find_method(base.cls, attr)
                 if q:
                     return FuncV(q, bound=base)
+                if base.cls + "." + attr in self.engine.contracts:
+                    return FuncV(base.cls + "." + attr, bound=base)
             return self.read_field(st, base, attr, node)
         if isinstance(base, (T, ListV, DictV, RecV)):
             return FuncV("method." + attr, bound=base)
@@ -682,6 +689,8 @@ class Run(object):
             return self.wrap(st, Select(base.vals, k), base.vtype)
         if isinstance(base, IterV) and base.seq is None:
             return base.elem(st, idx)
+        if isinstance(base, T) and isinstance(base.sort, tuple) and base.sort[0] == "Array":
+            return Select(base, self.raw(st, idx))
         raise Unsupported("index of %r" % (base,))
 
     # -------------------------------------------------------------- operators
@@ -943,6 +952,8 @@ class Run(object):
         if isinstance(f, ClassV):
             return self.construct(st, f, args, kwargs, node)
         q = f.qual
+        if q.startswith("builtins.") and f.bound is not None and q in self.engine.contracts:
+            return self.call_function(st, q, [f.bound] + args, kwargs, node)
         if q.startswith("builtins."):
             return self.call_builtin(st, q[9:], args, kwargs, node)
         if q.startswith("method."):
@@ -1145,6 +1156,8 @@ class Run(object):
             raise Unsupported("str() of %r" % (a,))
         if name == "isinstance":
             return self.engine.isinstance_hook(self, st, args[0], args[1], node)
+        if "builtins." + name in self.engine.contracts:
+            return self.call_function(st, "builtins." + name, args, kwargs, node)
         if name == "type":
             raise Unsupported("type()")
         raise Unsupported("builtin " + name)
@@ -1202,7 +1215,9 @@ class Run(object):
                     return S("")
                 if s.op == "#str" and s.val == "":
                     return App("J", (v,), STR)
-            raise Unsupported("join with separator")
+                UFS["joinsep"] = ([STR, Seq(STR)], STR)
+                return App("joinsep", (s, v), STR)
+            raise Unsupported("join of %r" % (a,))
         if name == "replace":
             a, b = args
             return App("str.replace_all", (s, a, b), STR)
@@ -1288,6 +1303,21 @@ class Run(object):
         contract = eng.contracts.get(q)
         r = eng.repo.func(q)
         if r is None:
+            if contract is not None and contract.get("external"):
+                names = contract.get("params", [])
+                params = dict(zip(names, args))
+                for k, v in kwargs.items():
+                    if k in names:
+                        params[k] = v
+                for n in names:
+                    if n not in params:
+                        d = contract.get("defaults", {})
+                        if n in d:
+                            params[n] = self.lift_const(st, d[n])
+                        else:
+                            raise Unsupported("missing argument %s in call of %s" % (n, q))
+                self.called.add(q)
+                return self.apply_contract(st, q, contract, None, params, node)
             raise Unsupported("call to unknown function " + q)
         mod, inner, fdef = r
         params = self.bind_params(fdef, args, kwargs, st, mod)
@@ -1449,10 +1479,21 @@ class Run(object):
         if callee_raises != "nothing":
             for exc in callee_raises:
                 cond = contract.get("raises_when", {}).get(exc)
+                onr = contract.get("on_raise", {}).get(exc) or contract.get("on_raise", {}).get("*")
+                effect = None
+                if onr:
+                    def effect(es, onr=onr, env=env, exc=exc):
+                        pre2 = es.fork()
+                        pre2.env = env
+                        for m in onr.get("modifies", []):
+                            self.havoc_target(es, m, env)
+                        saved = es.ghost.get("#exc")
+                        for e in onr.get("ensures", []):
+                            es.assume(self.spec_bool(e.replace("$EXC", repr(exc)), es, env=dict(env), old=pre2))
                 if cond is None:
-                    self.check(st, self.fresh("noexc_" + exc, BOOL), exc, node)
+                    self.check(st, self.fresh("noexc_" + exc, BOOL), exc, node, effect)
                 else:
-                    self.check(st, Not(self.spec_bool(cond, st, env=env, old=pre_state)), exc, node)
+                    self.check(st, Not(self.spec_bool(cond, st, env=env, old=pre_state)), exc, node, effect)
         # havoc the frame
         for m in contract.get("modifies", []):
             self.havoc_target(st, m, env)
@@ -1594,13 +1635,21 @@ class Run(object):
         if not isinstance(s, (ast.If, ast.For, ast.While, ast.Try, ast.With)):
             for c in comps:
                 out.extend(self.flush(c.st, pre))
+            always = self.contract.get("always")
+            if always and not self.engine.inline_stack and not self.spec_mode:
+                # crash-point quantifier: the two-state invariant holds after every statement and on every exceptional edge
+                for c in out:
+                    for k, inv in enumerate(always):
+                        self.prove(c.st, self.spec_bool(inv, c.st), "crash-point", s, "line%d.%d" % (s.lineno, k + 1))
         return out
 
     def flush(self, st, pre):
         """turn the pending raises recorded while evaluating an expression into raise completions"""
         out = []
         seen = set()
-        for cond, exc in st.pending:
+        for ent in st.pending:
+            cond, exc = ent[0], ent[1]
+            effect = ent[2] if len(ent) > 2 else None
             k = (str(cond), exc)
             if k in seen:
                 continue
@@ -1608,6 +1657,8 @@ class Run(object):
             es = pre.fork()
             es.pending = []
             es.assume(cond)
+            if effect is not None:
+                effect(es)
             out.append(Completion("raise", es, exc=exc))
         st.pending = []
         return out
@@ -2092,7 +2143,24 @@ class Run(object):
         return out
 
     def st_With(self, s, st):
-        return self.engine.with_hook(self, s, st)
+        """`with ctx as name: body` == name = ctx; try: body finally: name.__exit__() (exit modelled by the
+        contract '<class>.__exit__' if present, else a no-op)"""
+        pre = self.pre
+        if len(s.items) != 1:
+            raise Unsupported("with several items")
+        item = s.items[0]
+        v = self.ev(item.context_expr, st)
+        out = self.flush(st, pre)
+        always = self.contract.get("always")
+        if always and not self.engine.inline_stack:
+            for c in out + [Completion("normal", st)]:
+                for k, inv in enumerate(always):
+                    self.prove(c.st, self.spec_bool(inv, c.st), "crash-point", s, "line%d.%d" % (s.lineno, k + 1))
+        if item.optional_vars is not None:
+            self.assign(st, item.optional_vars, v, s)
+        for c in self.exec_block(s.body, st):
+            out.append(c)
+        return out
 
     # ------------------------------------------------------------ entry point
     def run(self):
